@@ -20,7 +20,9 @@ RULE = ("real read_pin + brew on generated tables (1-3 files, 2-5 folds, label e
         "lower-is-better; target-rich / target-poor tables; 25-600 rows) with estimators that learn (a feature column, fixed "
         "or depending on the fitted rows), cannot learn (constant decision function) or learn badly (negated feature), with "
         "decision_function or predict_proba only, override on/off, shuffle on/off, max_iter 1-3, Model(direction=...) "
-        "absent / given, train/test FDR 0.05-0.5, max_workers 1-4, subset_max_train absent / binding, ensemble on/off, "
+        "absent / given, train/test FDR 0.05-0.5, max_workers 1-4, subset_max_train absent / binding, ensemble on/off (ensemble: "
+        "averaged scores, fall-back decision, returned scores / descs / fold order of the returned models by Model/Brew.v bw_brew_ens; "
+        "the second call gets the fold models in REVERSED order), "
         "prediction / training-read chunk sizes, psms as list or single data set, rng as int or Generator. "
         "compared with the extracted model: per fold model (best_feat, feat_pass, desc), is_trained (predicted for the "
         "row-independent estimators), the fall-back decision, the returned scores and descs; then (a) brew is called AGAIN "
@@ -44,7 +46,9 @@ ASSUMPTIONS = [
     "fitted rows (count of the estimator's scores on the observed training rows at train_fdr against feat_pass); for the "
     "row-dependent estimator it is taken from the run (C12's domain)",
     "model scores are the C02 model's calibrated rationals scaled to integers (order and ties exact); ensemble scores are the "
-    "exact mean of the fold models' integer-valued raw scores",
+    "exact mean of the fold models' integer-valued raw scores, computed by the extracted model (Model/Brew.v bw_brew_scores_ens / "
+    "bw_brew_ens, R2.22; float64 sums of such values are exact, np.mean is one rounded division) and cross-checked with the "
+    "mean recomputed in Python",
     "with subset_max_train the training rows of a fold are the rows the recording scaler saw (checked to be a sub-sample of "
     "the fold's complement of the planned size; the draw itself is C02's RNG oracle)",
     "feature names that collide with brew's internal 'fold' column and files whose feature columns are ordered differently "
@@ -398,10 +402,16 @@ def _run_brew(c):
                 flags = _rerun_flags(c, obs["override"])
                 for m, o in zip(ms2, flags):
                     m.override = o
+                if c.get("ensemble"):
+                    # R2.22: the fold models go back in ANOTHER order (the flags stay with their folds): brew sorts them by
+                    # fold before it averages and before it looks for the first model with the largest feat_pass
+                    ms2 = ms2[::-1]
                 try:
                     _, models2, scores2, descs2 = call(dss2, ms2)
                     obs["rerun"] = {"scores": [_fr(s) for s in scores2], "descs": [bool(x) for x in descs2],
                                     "n_models": len(models2)}
+                    if c.get("ensemble"):
+                        obs["rerun"]["model_folds"] = [m.fold for m in models2]
                 except BaseException as e:   # noqa
                     if isinstance(e, (KeyboardInterrupt, SystemExit, MemoryError)):
                         raise
@@ -688,6 +698,61 @@ def _ensemble_scores(c, obs):
     return out
 
 
+def _ens_raw(c, obs, fl_view):
+    """decision values of every fold model on one file of the positional view, as integers in units of 1 / fscale"""
+    kind = c.get("est_kind", "col")
+    out = []
+    for m in range(c["folds"]):
+        col = obs["cols"][m]
+        vals = fl_view["data"]["rid" if col == 0 else "feat%d" % (col - 1)]
+        out.append([0 for _ in vals] if kind == "const" else [(-int(v) if kind == "neg" else int(v)) for v in vals])
+    return out
+
+
+def _ensemble_scores_model(c, obs):
+    """R2.22: the averaged scores by the extracted model (Model/Brew.v bw_brew_scores_ens through c02's driver entry), on the
+    positional view of the case (integers in units of 1 / fscale); must equal the Python mean of _ensemble_scores"""
+    o = dict(obs, features=None)
+    o.setdefault("ref_keys", obs["keys"])
+    fs = c.get("fscale", 1)
+    sm = c02._scores_model_ens(_view(c), o)
+    if any(s_[0] == "err" for s_ in sm):
+        return sm, None
+    ms = [[Fraction(float(q / fs)) for q in s_[1]] for s_ in sm]
+    if lib.jsonable(ms) != lib.jsonable(_ensemble_scores(c, obs)):
+        raise lib.ModelError("c07: the extracted ensemble model and the Python mean of the fold models' columns disagree")
+    return sm, ms
+
+
+def _brew_ens_model(c, obs, bests, trained, flags):
+    """R2.22: brew(ensemble=True) as a whole by the extracted model (Model/Brew.v bw_brew_ens, driver entry c07.brew_ens): the
+    fitted fold models (delivered in reversed order), the collections with their feature columns -> fold numbers of the
+    returned models, scores, descs.  All feature values in units of 1 / fscale (the row-id column is multiplied by fscale)."""
+    k = c["folds"]
+    fs = c.get("fscale", 1)
+    v = _view(c)
+    keys = obs.get("ref_keys") or obs["keys"]
+    fitted = []
+    for m in range(k):
+        b = bests[m]
+        raws = [_ens_raw(c, obs, fl)[m] for fl in v["files"]]
+        fitted.append("%s %s %s %s %s %s %s" % (lib.z(m + 1), lib.b(trained[m]), lib.z(b[1]), lib.b(flags[m]),
+                                                  lib.z(c["feats"].index(b[0])), lib.b(b[2]), lib.lst(raws, lambda r: lib.lst(r))))
+    fitted = fitted[::-1]
+    files = []
+    for j, fl in enumerate(c["files"]):
+        feats = [[int(x) * (fs if name == "rid" else 1) for x in fl["data"][name]] for name in c["feats"]]
+        files.append("%s %s %s" % (lib.lst(keys[j]), lib.lst(fl["targets"], lib.b), lib.lst(feats, lambda r: lib.lst(r))))
+    line = "c07.brew_ens %s %s %s %d %s %d %s" % (lib.z(c.get("chunks", {}).get("predict", 700000)), lib.z(k), lib.q(Fraction(c["test_fdr"])),
+                                                  len(fitted), " ".join(fitted), len(files), " ".join(files))
+    t = Toks(lib.run_driver([line])[0])
+    r = t.result(lambda: (t.lst(), t.lst(lambda: t.lst(t.q)), t.lst(t.b)))
+    if r[0] == "err":
+        return {"error": r[1]}
+    folds, scores, descs = r[1]
+    return {"folds": folds, "scores": [[Fraction(float(q / fs)) for q in s_] for s_ in scores], "descs": descs}
+
+
 def run_case(c):
     if c["fn"] == "conf":
         ce = _eff_case(c, c["scores"], c["descs"])
@@ -803,7 +868,9 @@ def run_case(c):
     # (2) model scores
     if all(trained):
         if c.get("ensemble"):
-            mscores = _ensemble_scores(c, obs)
+            sm, mscores = _ensemble_scores_model(c, obs)
+            if mscores is None:
+                return ("err", [s_[1] for s_ in sm if s_[0] == "err"][0]), ("ok", impl)
         else:
             sm = _c02_scores(c, obs)
             if any(s[0] == "err" for s in sm):
@@ -837,6 +904,13 @@ def run_case(c):
     impl["_shapes"] = obs["shapes"]
     model["n_returned"] = [len(c["files"])] * 3
     impl["n_returned"] = obs["n_returned"]
+    if c.get("ensemble"):
+        # the same answer once more, from the model of the whole ensemble branch (sort by fold, sums, pred_total, bd_decide,
+        # fall-back columns): fold numbers of the returned models, scores, descs
+        model["brew_ens"] = _brew_ens_model(c, obs, bests, trained, [c["override"]] * k)
+        impl["brew_ens"] = {"folds": obs["model_folds"], "scores": obs["scores"], "descs": obs["descs"]}
+        if lib.jsonable(model["brew_ens"].get("scores")) != lib.jsonable(model["scores"]) or model["brew_ens"].get("descs") != model["descs"]:
+            raise lib.ModelError("c07: bw_brew_ens and bd_decide on the ensemble scores disagree")
     _tag(c, "out:fallback" if choice is not None else ("out:kept-zero-scores" if not all(trained) else "out:kept-model"))
     if not all(trained):
         _tag(c, "out:untrained")
@@ -849,6 +923,8 @@ def run_case(c):
         if dec2[0] == "ok":
             s2, d2 = _returned(c, mscores, bests, dec2[1][1])
             model["rerun"] = {"scores": s2, "descs": d2, "n_models": k}
+            if c.get("ensemble"):
+                model["rerun"]["model_folds"] = list(range(1, k + 1))     # fed back in reversed order, returned in fold order
             model["_rerun_fallback"] = dec2[1][1] is not None
             _tag(c, "out:rerun-" + ("fallback" if dec2[1][1] is not None else "kept") + ("-mixed-flags" if len(set(flags)) > 1 else ""))
         else:
@@ -906,7 +982,7 @@ def _ceff(c):
     return _eff_case(c, [[float(v) for v in fl["data"][a[0]]] for fl, a in zip(c["files"], auto)], [a[1] for a in auto])
 
 
-BREW_KEYS = ("best", "trained", "scores", "descs", "n_returned", "rerun", "conf")
+BREW_KEYS = ("best", "trained", "scores", "descs", "n_returned", "rerun", "conf", "brew_ens")
 
 
 def same(c, m, i):
